@@ -557,6 +557,31 @@ def fn_bodies(src):
     return out
 
 
+def translate_build(impl_fns, tr, BERR, Untranslatable, Parser, tokenize):
+    """`PacketBuilder::build`: the guard is translated by the reassembly translator `tr`; the nested loops
+    `for frame in self.frames.iter() { let s = if frame.multi_frame_flag { A } else { B }; for i in s..frame.data_len { data.push(frame.data[i as usize]); } }`
+    are the primitives `Prim.forEach` / `Prim.pushRange` (the inner loop panics when an index is not an index of the array)."""
+    if "build" not in impl_fns or impl_fns["build"][0].replace(" ", "") != "&self":
+        raise Untranslatable("signature")
+    body = re.sub(r"//[^\n]*", "", impl_fns["build"][2])
+    m = re.fullmatch(r"\{\s*if\s+(.*?)\s*\{\s*return\s+Err\(PacketBuilderError::(\w+)\);\s*\}\s*"
+                     r"let\s+mut\s+(\w+)\s*=\s*vec!\[\];\s*"
+                     r"for\s+(\w+)\s+in\s+self\.frames\.iter\(\)\s*\{\s*let\s+(\w+)\s*=\s*if\s+\4\.multi_frame_flag\s*\{\s*(\d+)\s*\}\s*else\s*\{\s*(\d+)\s*\};\s*"
+                     r"for\s+(\w+)\s+in\s+\5\.\.\4\.data_len\s*\{\s*\3\.push\(\4\.data\[\8\s+as\s+usize\]\);\s*\}\s*\}\s*"
+                     r"Ok\(Packet\s*\{\s*is_error:\s*self\.is_error,\s*device_address:\s*self\.device_address,\s*(?:data|data:\s*\3),?\s*\}\)\s*\}", body, re.S)
+    if not m or m.group(2) not in BERR:
+        raise Untranslatable("shape of build")
+    cond, cty, pcs = tr.expr(Parser(tokenize(m.group(1))).expr(nostruct=True), {})
+    if cty != "bool" or pcs:
+        raise Untranslatable("guard of build")
+    return ("  if %s then .err %s else\n"
+            "  (Prim.forEach b.frames [] fun data frame =>\n"
+            "    let start_index := (if frame.multi then %s else %s)\n"
+            "    Prim.pushRange data frame.data start_index frame.dataLen).bind fun data =>\n"
+            "  .ok { isError := b.isError, addr := b.addr, data := data }" % (cond, BERR[m.group(2)], m.group(6), m.group(7)))
+
+
+
 def translate(src):
     """returns (lean text of Generated/Reassembly.lean, [names not translated])"""
     fns = fn_bodies(src)
@@ -584,7 +609,13 @@ def translate(src):
          "`self` is `b`, `frame` is `f`; the result carries the builder after the call")
     emit("new", "(f : Frame) : Res BErr Builder", "new", "frame:Frame", result_builder, "Builder.new f", "`frame` is `f`")
     emit("framesLeft", "(b : Builder) : Res BErr Nat", "frames_left", "&self", None, "b.framesLeft", "with the accessors it calls inlined; `u16` subtraction is checked")
-    text = ("import RossModel.Packet\n"
+    try:
+        btext = translate_build(fns, tr, BERR, Untranslatable, Parser, tokenize)
+        out.append("/-- translated from `PacketBuilder::build` in src/packet.rs (the nested loops are `Prim.forEach` / `Prim.pushRange`) -/\ndef build (b : Builder) : Res BErr Packet :=\n%s\n" % btext)
+    except (Untranslatable, KeyError, TypeError, IndexError) as ex:
+        missing.append("build")
+        out.append("/-- `PacketBuilder::build` could not be translated on this run (%s): this is the hand-written model's definition -/\ndef build (b : Builder) : Res BErr Packet :=\n  b.build\n" % str(ex).replace("-/", ""))
+    text = ("import RossModel.Spec.SrcPrims\n"
             "/-! GENERATED by bin/extract (bin/rust2lean.py) from src/packet.rs of the repository under verification — do not edit.\n"
             "Every run of a check regenerates this file from /repo's working tree before building the theorems. -/\n"
             "namespace Ross.Src\nopen Ross\n\n" + "\n".join(out) +
